@@ -25,6 +25,7 @@ type lifeCycle struct {
 	curGameID string
 	closedAt  int // event seq at which the harness closed/released the table between hands (0 = not)
 	external  bool
+	override  string // when set, every failure of the automaton is reported under this one signature
 }
 
 func statusClass(st pokertable.TableStateStatus) string {
@@ -67,7 +68,11 @@ func (l *lifeCycle) step(s *sim.Sim, e *sim.Event, standbySeen bool) {
 		ok = true
 	}
 	if !ok {
-		l.c.Failf("C07.transition."+from+"-"+to, "status moved from %s to %s (event %s %s)", l.last, t.State.Status, e.Kind, e.Name)
+		sig := "C07.transition." + from + "-" + to
+		if l.override != "" {
+			sig = l.override
+		}
+		l.c.Failf(sig, "status moved from %s to %s (event %s %s)", l.last, t.State.Status, e.Kind, e.Name)
 	}
 	l.last = t.State.Status
 }
@@ -102,10 +107,23 @@ func c07Body(c *run.Ctx) { c07BodyIv(c, 0) }
 
 // c07BodyIv: interval > 0 runs the table with a real continue delay of that many
 // seconds and issues control operations at drawn offsets inside it.
-func c07BodyIv(c *run.Ctx, interval int) {
+func c07BodyIv(c *run.Ctx, interval int) { c07BodyOpt(c, interval, false) }
+
+// forceNoHold: every hand has the next one set up and confirmed from inside the settled
+// notification, without holding it open (pinned demonstration of the recorded finding)
+func c07BodyOpt(c *run.Ctx, interval int, forceNoHold bool) {
 	nontrivial := false
 	l := &lifeCycle{c: c, gameIDs: map[string]bool{}}
 	standbySeen := false
+	raceWindow, raceSettled := false, false // see hooks.Event
+	const raceSig = "C07.gate-completes-during-continue-step"
+	vio := func(sig, format string, args ...interface{}) {
+		if raceSettled {
+			c.Failf(raceSig, "after the next hand was set up and confirmed from inside the settled notification: ["+sig+"] "+format, args...)
+		}
+		c.Failf(sig, format, args...)
+	}
+	prevGameID := ""
 	handsInARow := 0
 	changedBetween := false
 	var hooks sim.Hooks
@@ -122,18 +140,29 @@ func c07BodyIv(c *run.Ctx, interval int) {
 			s.Label("torn_status_read")
 			return
 		}
-		l.step(s, e, standbySeen)
 		cls := statusClass(t.State.Status)
+		if cls == "opened" && e.Kind == "table" && t.State.GameState != nil && prevGameID != "" && t.State.GameState.GameID == prevGameID {
+			c.Failf("C07.opened-with-previous-hand-state", "a table snapshot with status opened and game count %d still carries the hand state of the previous hand (%s): the hand was opened while the previous one was still being settled", t.State.GameCount, prevGameID)
+		}
+		if raceWindow && (cls == "settled" || raceSettled) {
+			// the gate completes while the engine settles / continues this hand (set-up and signals
+			// issued from inside the settled notification): the continue step is not serialised with
+			// the open, so what follows may break the life cycle in several ways; all of them are
+			// reported under one signature (a recorded finding, DESIGN.md section 5)
+			raceSettled = true
+			l.override = raceSig
+		}
+		l.step(s, e, standbySeen || raceSettled)
 		if cls == "opened" && t.State.GameState == nil && e.Kind == "table" {
 			// the opened snapshot of a new hand
 			if noOpenAfter > 0 && e.Seq > noOpenAfter {
-				c.Failf("C07.open-after-"+noOpenWhy, "a hand opened (game count %d) although the table had been %s between hands", t.State.GameCount, noOpenWhy)
+				vio("C07.open-after-"+noOpenWhy, "a hand opened (game count %d) although the table had been %s between hands", t.State.GameCount, noOpenWhy)
 			}
 			if l.openHand {
-				c.Failf("C07.open-while-unsettled", "hand with game count %d opened while the previous hand was not settled", t.State.GameCount)
+				vio("C07.open-while-unsettled", "hand with game count %d opened while the previous hand was not settled", t.State.GameCount)
 			}
 			if t.State.GameCount != l.lastCount+1 {
-				c.Failf("C07.game-count", "opened hand has game count %d, previous was %d", t.State.GameCount, l.lastCount)
+				vio("C07.game-count", "opened hand has game count %d, previous was %d", t.State.GameCount, l.lastCount)
 			}
 			l.lastCount = t.State.GameCount
 			l.openHand = true
@@ -142,20 +171,25 @@ func c07BodyIv(c *run.Ctx, interval int) {
 		}
 		if gs := t.State.GameState; gs != nil && l.openHand && l.curGameID == "" {
 			if l.gameIDs[gs.GameID] {
-				c.Failf("C07.game-id-reused", "hand with game count %d carries game id %s which an earlier hand had", t.State.GameCount, gs.GameID)
+				vio("C07.game-id-reused", "hand with game count %d carries game id %s which an earlier hand had", t.State.GameCount, gs.GameID)
 			}
 			l.gameIDs[gs.GameID] = true
 			l.curGameID = gs.GameID
 		}
 		if gs := t.State.GameState; gs != nil && l.curGameID != "" && gs.GameID != l.curGameID {
-			c.Failf("C07.game-id-changed", "game id changed within a hand: %s -> %s", l.curGameID, gs.GameID)
+			vio("C07.game-id-changed", "game id changed within a hand: %s -> %s", l.curGameID, gs.GameID)
 		}
 		if cls == "settled" {
 			l.openHand = false
+			if l.curGameID != "" {
+				prevGameID = l.curGameID
+			}
 		}
 	}
 	// control operations
 	closeInCB := false
+	setupInCB := false
+	holdCB := false
 	hooks.Fence = func(s *sim.Sim, h *sim.Hand) {
 		// only the engine's own fences (gate armed / paused) are ordered after the
 		// reset of the per-hand fields; a close issued from outside is not
@@ -166,12 +200,12 @@ func c07BodyIv(c *run.Ctx, interval int) {
 		case pokertable.TableStateStatus_TableGameStandby:
 			standbySeen = true
 			if v := resetFieldsViolation(h.After); v != "" {
-				c.Failf("C07.not-reset", "between hands (after hand %d): %s", h.N, v)
+				vio("C07.not-reset", "between hands (after hand %d): %s", h.N, v)
 			}
 		case pokertable.TableStateStatus_TablePausing:
 			standbySeen = true // continueGame passes through standby before pausing
 			if v := resetFieldsViolation(h.After); v != "" {
-				c.Failf("C07.not-reset", "paused after hand %d: %s", h.N, v)
+				vio("C07.not-reset", "paused after hand %d: %s", h.N, v)
 			}
 		}
 	}
@@ -191,6 +225,28 @@ func c07BodyIv(c *run.Ctx, interval int) {
 			if closeInCB && name == pokertable.TableStateEvent_GameSettled {
 				closeInCB = false
 				sm.TE.CloseTable()
+			}
+			if setupInCB && name == pokertable.TableStateEvent_GameSettled {
+				// the competition side arms the next hand from the settlement notification and
+				// everybody confirms at once: the gate completes while the hand is still being settled
+				setupInCB = false
+				parts := map[string]int{}
+				for _, p := range t.State.PlayerStates {
+					if p.IsIn && p.Bankroll > 0 {
+						parts[p.PlayerID] = len(parts)
+					}
+				}
+				sm.TE.SetUpTableGame(t.State.GameCount+1, parts)
+				for id := range parts {
+					sm.TE.PlayerSettlementFinish(id)
+				}
+				if holdCB {
+					// keep the settlement notification open for a moment: the gate's own goroutine
+					// gets its turn while the table is still in status settled (there the open is
+					// refused: a hand state is present). Without the hold it gets its turn during the
+					// continue step, which is the recorded finding.
+					time.Sleep(30 * time.Millisecond)
+				}
 			}
 		}
 	}
@@ -284,6 +340,18 @@ func c07BodyIv(c *run.Ctx, interval int) {
 			s.WaitFor(400*time.Millisecond, func(e *sim.Event) bool { return false })
 			return false
 		}
+		// next hand armed and confirmed inside the settled callback of the coming hand
+		if forceNoHold || choose.Chance(c.Ch, "ctl.setup.cb", 8) {
+			setupInCB = true
+			raceWindow = true
+			holdCB = forceNoHold == false && choose.Chance(c.Ch, "ctl.setup.cb.hold", 50)
+			s.Label("setup_and_signals_in_settled_cb")
+			if holdCB {
+				s.Label("settled_cb_held_open")
+			}
+			nontrivial = true
+			return true
+		}
 		// close inside the settled callback of the coming hand (= during the continue delay)
 		if choose.Chance(c.Ch, "ctl.close.cb", 8) {
 			closeInCB = true
@@ -294,6 +362,12 @@ func c07BodyIv(c *run.Ctx, interval int) {
 		return true
 	}
 	o.AfterHand = func(s *sim.Sim, h *sim.Hand) {
+		if raceWindow {
+			s.WaitFor(300*time.Millisecond, func(e *sim.Event) bool { return false })
+			s.Label(fmt.Sprintf("hands_%d", len(s.Hands)))
+			c.St.Case(s.Labels(), true, traceOf(s), sampleOf(s))
+			c.End()
+		}
 		if (delayOp == "close" || delayOp == "release" || delayOp == "break") && h.SettledT != nil {
 			// whichever of the operation and the delayed continue step came first, no hand may
 			// open now; if the continue step won, the gate is armed: complete it and watch
@@ -381,6 +455,35 @@ var c07iStats = ev.New("C07", "c07i")
 // the same histories with a real 1 s continue delay and operations inside it
 func TestC07Interval(t *testing.T) {
 	run.Property(t, "C07", "c07i", c07iStats, run.Scale(4, 16), func(c *run.Ctx) { c07BodyIv(c, 1) })
+}
+
+var c07pStats = ev.New("C07", "c07p")
+
+// TestC07Pinned keeps the recorded finding demonstrated: histories in which every hand
+// has its successor set up and confirmed from inside the settled notification, repeated
+// until the open races with the continue step.
+func TestC07Pinned(t *testing.T) {
+	defer c07pStats.Write()
+	const sig = "C07.gate-completes-during-continue-step"
+	if run.IsKnown("C07", sig) == nil {
+		return
+	}
+	for attempt := 0; attempt < 200 && len(c07pStats.Known) == 0; attempt++ {
+		c := &run.Ctx{Prop: "C07", Check: "c07p", TB: t, St: c07pStats}
+		c.Ch = choose.NewRecorder(seededCh7{choose.NewSplitMix(uint64(1000 + attempt))})
+		c.RunBody(func(c *run.Ctx) { c07BodyOpt(c, 0, true) })
+	}
+	c07pStats.Case([]string{"pinned_gate_completes_during_continue_step"}, true, "pinned", nil)
+	c07pStats.Case([]string{"pinned_gate_completes_during_continue_step"}, true, "pinned2", nil)
+}
+
+type seededCh7 struct{ r *choose.SplitMix }
+
+func (s seededCh7) Int(label string, lo, hi int) int {
+	if hi <= lo {
+		return lo
+	}
+	return lo + s.r.Intn(hi-lo+1)
 }
 
 func TestC07(t *testing.T) {
